@@ -218,6 +218,14 @@ func protoShapes() []*fuzzInput {
 	add("native-json-tail", wire.Native, "$12 ECHO {a b  c\r\n")
 	add("native-quote", wire.Native, "$21 SET k i STRING \"a b\"x\"\r\n$9 GET k i x\r\n")
 	add("native-bad-term", wire.Native, "$4 PINGxx$4 PING\r\n")
+	// the native line parser (HTTP paths, POST bodies and `$n line` share it): quotes and JSON starts
+	for i, line := range []string{`set k i string "`, `set k i string ""`, `set k i string "a`, `set k i string a"`, `set k i STRING "`, `set k i object {`, `set k i object {"type":"Point"`,
+		`"`, `""`, `" "`, `set "`, `get k "`, `set k i string  `, `  set   k  i  string  x  `, `set k i string "x" y`, `set k i field "f" 1 string "`} {
+		esc := strings.NewReplacer(" ", "+", `"`, "%22", "{", "%7B", "}", "%7D").Replace(line)
+		add("http-native-line-"+strconv.Itoa(i), wire.HTTPGet, "GET /"+esc+" HTTP/1.1\r\n\r\n")
+		add("post-native-line-"+strconv.Itoa(i), wire.HTTPPost, "POST / HTTP/1.1\r\nContent-Length: "+strconv.Itoa(len(line))+"\r\n\r\n"+line)
+		add("native-line-"+strconv.Itoa(i), wire.Native, "$"+strconv.Itoa(len(line))+" "+line+"\r\n")
+	}
 	add("http-no-path", wire.HTTPGet, "GET  HTTP/1.1\r\n\r\n")
 	add("http-root", wire.HTTPGet, "GET / HTTP/1.1\r\n\r\n")
 	add("http-bad-escape", wire.HTTPGet, "GET /PING%zz HTTP/1.1\r\n\r\n")
